@@ -110,6 +110,7 @@ Pats == <<
   [text |-> "^[ab]*$",   ast |-> Chain(<<Bol, Star(Cls({"a", "b"})), Eol>>)]
 >>
 
+ASSUME RUniverse \subseteq DOMAIN Spell
 SelectRe(k, ex) == {n \in ex : Matches(Pats[k].ast, Spell[n])}
 
 \* unit checks of the matcher against hand-evaluated (pattern, name) pairs
